@@ -51,6 +51,7 @@ class Fn:
         self.ret = None
         self.rules = {}
         self.loopinfo = {}    # loop ordinal -> facts about generated range-for loops
+        self.hoisted = []     # declarations moved from loop bodies to function level
 
 
 class Lower:
@@ -65,6 +66,7 @@ class Lower:
         self.enumconst_cache = {}
         self.cur_ret_ref = False
         self.cb_target = []
+        self.loop_depth = 0
         self.register_specializations()
 
     def register_specializations(self):
@@ -1284,7 +1286,13 @@ class Lower:
         self.local_ids.add(v['id'])
         pt = parse_type(tq)
         init = [c for c in kids(v)]
-        if pt.kind == 'arr' and not pt.arr.isdigit():
+        if not init and self.loop_depth > 0 and pt.kind == 'named' and self.types.classify(pt)[0] in ('builtin', 'enum'):
+            # an uninitialised scalar declared inside a loop body is declared once at function level instead (same meaning in C++:
+            # indeterminate at each iteration); dfcc cannot frame pointers to block-scope objects of a loop body (DESIGN T26)
+            ct0 = self.types.ctype(pt)
+            self.cur.locals.append((name, ct0))
+            self.cur.hoisted.append('%s %s;' % (ct0, name))
+            return
             # VLA (writer.cpp): kept as a C VLA; its bound must be the name of a local (clang prints the bound in the type)
             bound = pt.arr
             if not any(bound == n for n, _ in self.cur.locals) and not any(bound == p[1] for p in self.cur.params):
@@ -1402,6 +1410,13 @@ class Lower:
         return '/*@LOOP %d@*/' % self.cur.loops
 
     def st_WhileStmt(self, n, ind, out):
+        self.loop_depth += 1
+        try:
+            return self._st_WhileStmt(n, ind, out)
+        finally:
+            self.loop_depth -= 1
+
+    def _st_WhileStmt(self, n, ind, out):
         c, body = kids(n)[-2], kids(n)[-1]
         mark = self.loop_marker()
         if self.has_call(c):
@@ -1421,6 +1436,13 @@ class Lower:
         return True
 
     def st_ForStmt(self, n, ind, out):
+        self.loop_depth += 1
+        try:
+            return self._st_ForStmt(n, ind, out)
+        finally:
+            self.loop_depth -= 1
+
+    def _st_ForStmt(self, n, ind, out):
         ks = n.get('inner', [])
         init, condvar, c, inc, body = ks
         out.append(ind + '{')
@@ -1438,6 +1460,13 @@ class Lower:
         out.append(ind + '}')
 
     def st_CXXForRangeStmt(self, n, ind, out):
+        self.loop_depth += 1
+        try:
+            return self._st_CXXForRangeStmt(n, ind, out)
+        finally:
+            self.loop_depth -= 1
+
+    def _st_CXXForRangeStmt(self, n, ind, out):
         ks = n.get('inner', [])
         # children: [init?] range-decl, begin-decl, end-decl, cond, inc, loopvar-decl, body
         ks = [k for k in ks]
@@ -1643,7 +1672,9 @@ class Lower:
                         raise LowerError("ctor initialiser form")
         if not body:
             raise LowerError("function %s has no body" % f.cname)
+        self.loop_depth = 0
         inner = self.st(body[0], '  ')
+        out.extend('  ' + h for h in f.hoisted)
         # a call evaluated after an exception was raised (nested call arguments) must have no effect
         out.append('  if (g_exc) %s' % self.exc_exit[0])
         if is_ctor:
